@@ -77,7 +77,9 @@ def gen_reconnect(tier, rng):
     outcomes = [{"refuse": True}, {"unreachable": 113}, {"status": 503}, {"evs": [("BC",)]}, {"evs": [FR["text"], ("BR",)]}, {"evs": [FR["bin"], ("T",)]},
                 {"evs": [FR["text"], FR["close"]]}, {"evs": [("BP",)]},
                 # losses in the middle of a message and in the middle of a frame: nothing of them may survive into the next connection
-                {"evs": [FR["tfrag0"], ("BC",)]}, {"evs": [FR["text"], ("P", "827e"), ("BR",)]}, {"evs": [("P", "81"), ("BC",)]}]
+                {"evs": [FR["tfrag0"], ("BC",)]}, {"evs": [FR["text"], ("P", "827e"), ("BR",)]}, {"evs": [("P", "81"), ("BC",)]},
+                # a server close frame ends the run whatever its status code says (1012 service restart, 1013 try again later)
+                {"evs": [("F", 8, 1, b"\x03\xf4restart".hex())]}, {"evs": [FR["text"], ("F", 8, 1, b"\x03\xf5".hex())]}]
     L = 3 if tier == "quick" else 5
     for k in range(1, L + 1):
         for seq in itertools.product(range(len(outcomes)), repeat=k):
